@@ -87,10 +87,11 @@ PROPS = {
         "level_note": V0_NOTE,
     },
     "C08": {
-        "families": [{"name": "ty"}, {"name": "decl"}, {"name": "hist"}],
+        "families": [{"name": "ty"}, {"name": "decl"}, {"name": "hist"}, {"name": "altform"}],
         "tags": {"prefix": "direct", "cross-prefix": "direct"},
         "rule": "every strict prefix (all cut points up to 96 bytes, sampled beyond) of every encoding generated by ty/decl, and of every "
-                "cross-version encoding of hist with stored version >= 1, must be Err on the implementation",
+                "cross-version encoding of hist with stored version >= 1, must be Err on the implementation; every strict prefix of the "
+                "unknown-length form of a sequence (only producible through serialize_iterator) under every ordered target container",
         "trusted": MODEL_TRUST,
         "partial": "cross-version reads on pairs outside pairAlignedB or of version-0 data: correspondence only",
         "level_text": "Proof: for every decoder program a successful run is unchanged by appending data (run_extends, induction on the "
